@@ -1,9 +1,9 @@
-(** The candidate keys of a design of fragment F0: [all_keys] enumerates exactly
+(** The candidate keys of a design of fragment F2: [all_keys] enumerates exactly
     the in-range keys ([key_ok]), without repetition, [possible_keys] of them.
     Proof file. *)
 From Coq Require Import ZArith List Bool Arith Lia.
 From SP Require Import Design.Flat Design.Layout Comb.CombModel Comb.CombSpec Random.Enum Random.Frag
-  Random.RunLemmas Random.Frag0Enum Random.Frag0Decode.
+  Random.RunLemmas Random.FragPerm Random.Frag0Enum Random.Frag0Decode.
 From SP Require Comb.PermProofs.
 Import ListNotations.
 Open Scope nat_scope.
@@ -115,49 +115,66 @@ Qed.
 (** * The components of one round *)
 Section F0K.
 Variable fb : flat.
-Hypothesis HF : frag1 fb = true.
-Hypothesis Hq : 0 < f0_q fb.
+Hypothesis HF : frag2 fb = true.
+Variables m lm : memo_t.
+Hypothesis HM : memos_ok fb m lm.
 
+Local Notation Hq := (f0_q_pos fb HF).
 Local Notation q := (f0_q fb).
+Local Notation C := (f0_C fb).
+Local Notation cws := (f0_cws fb).
 Local Notation T := (fl_trials fb).
 Local Notation lo := (f0_leftover fb).
 Local Notation inst := (f0_instances fb).
 Local Notation ubi := (f0_ubi fb).
-Local Notation en := (f0_enum fb).
+Local Notation en := (f0_enum fb m lm).
 
 Definition f0_comps (tc : nat) : list comp :=
-  flat_map (fun pi => map (fun ind => (Z.of_nat pi, zeros (if tc =? q then q else tc), ind))
+  flat_map (fun pi => map (fun ind => (Z.of_nat pi, zeros tc, ind))
                           (ranges_product (f0_inds fb (Z.of_nat tc))))
-           (seq 0 (Z.to_nat (f0_perms fb tc))).
+           (seq 0 (Z.to_nat (f0_N fb tc))).
 
-Lemma f0_perms_nonneg tc : tc <= q -> (0 <= f0_perms fb tc)%Z.
+Lemma f0_N_nonneg tc : tc <= C -> (0 <= f0_N fb tc)%Z.
+Proof. intros H. apply (p_N_nonneg cws). rewrite (f0_p_C fb HF). exact H. Qed.
+
+(** a round size with its memo table, as [all_keys] and [decode_with] use them *)
+Definition round_ok (tc : nat) (memo : memo_t) : Prop :=
+  tc <= C /\ f0_memo_ok fb memo /\ forall j, (0 <= j < f0_N fb tc)%Z -> perm_def fb tc memo j.
+
+Lemma round_ok_full : round_ok C m.
+Proof. split; [apply le_n|]. split; [apply (mo_m fb m lm HM) | apply (mo_full fb m lm HM)]. Qed.
+
+Lemma round_ok_left : lo <> 0 -> round_ok lo lm.
 Proof.
-  intros H. unfold f0_perms. pose proof (PermProofs.ffact_fact q tc H) as E.
-  pose proof (fact_nat_pos (q - tc)). pose proof (fact_nat_pos q). nia.
+  intros Hne. split; [apply Nat.lt_le_incl, (f0_leftover_lt fb HF)|].
+  split; [apply (mo_lm fb m lm HM) | apply (mo_left fb m lm HM Hne)].
 Qed.
 
-Lemma components_f0 tc : tc <= q ->
-  components_for en (f0_shape fb tc) (Z.of_nat tc) [] = ROk (f0_comps tc).
+Lemma components_f0 tc memo : round_ok tc memo ->
+  components_for en (f0_shape fb tc) (Z.of_nat tc) memo = ROk (f0_comps tc).
 Proof.
-  intros Hle. unfold components_for. cbn [sh_cross f0_shape sh_combs sh_inds].
+  intros (Hle & Hmemo & Hdef). unfold components_for. cbn [sh_cross f0_shape sh_combs sh_inds].
   assert (H : rmap (fun pi : nat =>
                       src_shapes <-- (if full_round en (Z.of_nat tc) then ROk (map (fun _ : asg => 1%Z) inst)
-                                      else perm <-- jth_permutation_indices (en_base en) (q_instances (en_base en)) (Z.of_nat tc) (Z.of_nat pi) [] ;;;
+                                      else perm <-- jth_permutation_indices (en_base en) (q_instances (en_base en)) (Z.of_nat tc) (Z.of_nat pi) memo ;;;
                                            rmap (zindex (map (fun _ : asg => 1%Z) inst)) perm) ;;;
                       ROk (flat_map (fun src => map (fun ind => (Z.of_nat pi, src, ind)) (ranges_product (f0_inds fb (Z.of_nat tc))))
                                     (ranges_product src_shapes)))
-                   (seq 0 (Z.to_nat (f0_perms fb tc))) =
-              ROk (map (fun pi => map (fun ind => (Z.of_nat pi, zeros (if tc =? q then q else tc), ind))
+                   (seq 0 (Z.to_nat (f0_N fb tc))) =
+              ROk (map (fun pi => map (fun ind => (Z.of_nat pi, zeros tc, ind))
                                       (ranges_product (f0_inds fb (Z.of_nat tc))))
-                       (seq 0 (Z.to_nat (f0_perms fb tc))))).
+                       (seq 0 (Z.to_nat (f0_N fb tc))))).
   { apply rmap_ok_map. intros pi Hpi. apply in_seq in Hpi.
-    rewrite (full_round_f0 fb HF Hq). destruct (tc =? q) eqn:E.
-    - cbn [rbind]. rewrite ranges_product_ones. rewrite (f0_instances_length fb HF). cbn [flat_map]. rewrite app_nil_r. reflexivity.
-    - unfold jth_permutation_indices, q_instances. cbn [en_base f0_enum eb_m eb_unweighted eb_instances f0_base Z.eqb Pos.eqb andb].
+    rewrite (full_round_f0 fb HF m lm HM). destruct ((tc =? q) && f0_unw fb) eqn:E.
+    - apply andb_prop in E. destruct E as [E _]. apply Nat.eqb_eq in E.
+      cbn [rbind]. rewrite ranges_product_ones. rewrite (f0_instances_length fb HF). cbn [flat_map]. rewrite app_nil_r.
+      rewrite E. reflexivity.
+    - unfold q_instances. cbn [en_base f0_enum eb_instances f0_base].
       rewrite (f0_instances_length fb HF).
-      assert (Hr : (0 <= Z.of_nat pi < f0_perms fb tc)%Z) by (pose proof (f0_perms_nonneg tc Hle); lia).
-      destruct (perm_of_spec fb HF Hq tc (Z.of_nat pi) Hle Hr) as (Hp & Hpl & [_ Hpb] & _).
-      rewrite Hp. cbn [lift rbind].
+      assert (Hr : (0 <= Z.of_nat pi < f0_N fb tc)%Z) by (pose proof (f0_N_nonneg tc Hle); lia).
+      pose proof (Hdef _ Hr) as Hd. unfold perm_def in Hd. rewrite Hd. cbn [rbind].
+      destruct (perm_of_spec fb HF Hq tc (Z.of_nat pi) Hle Hr (perm_def_U fb HF tc memo _ Hmemo Hr (Hdef _ Hr)))
+        as (_ & Hpl & Hpb & _).
       assert (Hz : rmap (zindex (map (fun _ : asg => 1%Z) inst)) (perm_of fb tc (Z.of_nat pi)) =
                    ROk (map (fun _ => 1%Z) (perm_of fb tc (Z.of_nat pi)))).
       { apply rmap_ok_map. intros p Hp'. rewrite Forall_forall in Hpb. specialize (Hpb p Hp').
@@ -174,16 +191,18 @@ Proof.
   apply Z.pow_nonneg. lia.
 Qed.
 
-Lemma f0_comps_In tc cp : tc <= q -> In cp (f0_comps tc) <-> comp_ok fb tc cp.
+Lemma f0_comps_In tc memo cp : round_ok tc memo -> In cp (f0_comps tc) <-> comp_ok fb tc cp.
 Proof.
-  intros Hle. unfold f0_comps, comp_ok. destruct cp as [[c0 c1] c2]. rewrite in_flat_map. split.
+  intros (Hle & Hmemo & Hdef). unfold f0_comps, comp_ok. destruct cp as [[c0 c1] c2]. rewrite in_flat_map. split.
   - intros [pi [Hpi Hin]]. apply in_seq in Hpi. apply in_map_iff in Hin. destruct Hin as [ind [E Hind]].
-    inversion E; subst. apply ranges_product_In in Hind. split; [lia|]. split; [reflexivity|].
+    inversion E; subst. apply ranges_product_In in Hind.
+    assert (Hr : (0 <= Z.of_nat pi < f0_N fb tc)%Z) by lia.
+    split; [exact Hr|]. split; [apply (perm_def_U fb HF tc memo _ Hmemo Hr (Hdef _ Hr))|]. split; [reflexivity|].
     unfold f0_inds in Hind. clear - Hind.
     remember (map (fun f => (Z.of_nat (length (f0_L fb f)) ^ Z.of_nat tc)%Z) ubi) as ss eqn:Es.
     revert Es. generalize ubi. induction Hind as [|s x ss' xs' Hx Hrest IH]; intros us Es; destruct us; try discriminate; [constructor|].
     cbn [map] in Es. inversion Es; subst. constructor; [exact Hx | apply IH; reflexivity].
-  - intros (Hc0 & Hc1 & Hc2). exists (Z.to_nat c0). split; [apply in_seq; lia|].
+  - intros (Hc0 & _ & Hc1 & Hc2). exists (Z.to_nat c0). split; [apply in_seq; lia|].
     apply in_map_iff. exists c2. split; [rewrite Z2Nat.id by lia; subst c1; reflexivity|].
     apply ranges_product_In. unfold f0_inds. clear - Hc2.
     induction Hc2 as [|f x us xs Hx Hrest IH]; cbn [map]; constructor; assumption.
@@ -191,10 +210,10 @@ Qed.
 
 Lemma f0_comps_NoDup tc : NoDup (f0_comps tc).
 Proof.
-  unfold f0_comps. generalize (Z.to_nat (f0_perms fb tc)) as m. intros m.
-  assert (G : forall a, NoDup (flat_map (fun pi => map (fun ind => (Z.of_nat pi, zeros (if tc =? q then q else tc), ind))
-                                                       (ranges_product (f0_inds fb (Z.of_nat tc)))) (seq a m))).
-  { induction m as [|m IH]; intros a; [constructor|]. cbn [seq flat_map].
+  unfold f0_comps. generalize (Z.to_nat (f0_N fb tc)) as k. intros k.
+  assert (G : forall a, NoDup (flat_map (fun pi => map (fun ind => (Z.of_nat pi, zeros tc, ind))
+                                                       (ranges_product (f0_inds fb (Z.of_nat tc)))) (seq a k))).
+  { induction k as [|k IH]; intros a; [constructor|]. cbn [seq flat_map].
     apply NoDup_app_intro; [| apply IH |].
     - apply FinFun.Injective_map_NoDup; [intros x y E; inversion E; reflexivity | apply ranges_product_NoDup].
     - intros cp Hcp Hin. apply in_map_iff in Hcp. destruct Hcp as [ind [E _]]. subst cp.
@@ -203,12 +222,12 @@ Proof.
   apply G.
 Qed.
 
-Lemma f0_comps_length tc : tc <= q ->
-  Z.of_nat (length (f0_comps tc)) = (f0_perms fb tc * prodZl (f0_inds fb (Z.of_nat tc)))%Z.
+Lemma f0_comps_length tc : tc <= C ->
+  Z.of_nat (length (f0_comps tc)) = (f0_N fb tc * prodZl (f0_inds fb (Z.of_nat tc)))%Z.
 Proof.
   intros Hle. unfold f0_comps. rewrite <- (ranges_product_length _ (f0_inds_nonneg tc)).
   rewrite (flat_map_length_const _ (length (ranges_product (f0_inds fb (Z.of_nat tc))))).
-  - rewrite seq_length, Nat2Z.inj_mul, Z2Nat.id by (apply f0_perms_nonneg; exact Hle). reflexivity.
+  - rewrite seq_length, Nat2Z.inj_mul, Z2Nat.id by (apply f0_N_nonneg; exact Hle). reflexivity.
   - intros pi _. apply map_length.
 Qed.
 
@@ -217,7 +236,7 @@ Qed.
 Definition f0_lefts : list (option comp) := if lo =? 0 then [None] else map Some (f0_comps lo).
 Definition f0_keys : list key :=
   flat_map (fun rs => map (fun l => {| k_pre := 0%Z; k_rounds := rs; k_left := l |}) f0_lefts)
-           (words (f0_rounds fb) (f0_comps q)).
+           (words (f0_rounds fb) (f0_comps C)).
 
 Lemma f0_rounds_per_run : rounds_per_run fb en = Z.of_nat (f0_rounds fb).
 Proof.
@@ -228,14 +247,14 @@ Qed.
 Lemma all_keys_f0 : all_keys fb en = ROk f0_keys.
 Proof.
   unfold all_keys. cbn [en_base en_shape en_memo f0_enum eb_csize f0_base].
-  rewrite (components_f0 q (le_n _)). cbn [rbind]. cbn [en_leftover en_lshape en_lmemo f0_enum].
+  rewrite (components_f0 C m round_ok_full). cbn [rbind]. cbn [en_leftover en_lshape en_lmemo f0_enum].
   rewrite f0_rounds_per_run, Nat2Z.id. cbn [en_pcount f0_enum Z.to_nat].
   change (Pos.to_nat 1) with 1. cbn [seq flat_map Z.of_nat].
   unfold f0_keys, f0_lefts.
   destruct (lo =? 0) eqn:E.
   - apply Nat.eqb_eq in E. rewrite E. cbn [Z.of_nat Z.eqb rbind]. rewrite app_nil_r. reflexivity.
   - apply Nat.eqb_neq in E. replace (Z.of_nat lo =? 0)%Z with false by (symmetry; apply Z.eqb_neq; lia).
-    rewrite (components_f0 lo (Nat.lt_le_incl _ _ (f0_leftover_lt fb HF Hq))). cbn [rbind]. rewrite app_nil_r. reflexivity.
+    rewrite (components_f0 lo lm (round_ok_left E)). cbn [rbind]. rewrite app_nil_r. reflexivity.
 Qed.
 
 Lemma f0_keys_In k : In k f0_keys <-> key_ok fb k.
@@ -243,18 +262,18 @@ Proof.
   unfold f0_keys, key_ok. rewrite in_flat_map. split.
   - intros [rs [Hrs Hin]]. apply in_map_iff in Hin. destruct Hin as [l [E Hl]]. subst k. cbn [k_pre k_rounds k_left].
     apply words_In in Hrs. destruct Hrs as [Hlen Hall]. split; [reflexivity|]. split; [exact Hlen|]. split.
-    + apply Forall_forall. intros cp Hcp. rewrite Forall_forall in Hall. apply (f0_comps_In q cp (le_n _)). apply Hall. exact Hcp.
+    + apply Forall_forall. intros cp Hcp. rewrite Forall_forall in Hall. apply (f0_comps_In C m cp round_ok_full). apply Hall. exact Hcp.
     + unfold f0_lefts in Hl. destruct (lo =? 0) eqn:E.
       * destruct Hl as [Hl | []]. subst l. apply Nat.eqb_eq. exact E.
       * apply in_map_iff in Hl. destruct Hl as [cp [E2 Hcp]]. subst l. apply Nat.eqb_neq in E. split; [exact E|].
-        apply (f0_comps_In lo cp (Nat.lt_le_incl _ _ (f0_leftover_lt fb HF Hq))). exact Hcp.
+        apply (f0_comps_In lo lm cp (round_ok_left E)). exact Hcp.
   - intros (Hpre & Hlen & Hrounds & Hleft). exists (k_rounds k). split.
     + apply words_In. split; [exact Hlen|]. apply Forall_forall. intros cp Hcp. rewrite Forall_forall in Hrounds.
-      apply (f0_comps_In q cp (le_n _)). apply Hrounds. exact Hcp.
+      apply (f0_comps_In C m cp round_ok_full). apply Hrounds. exact Hcp.
     + apply in_map_iff. exists (k_left k). split; [destruct k; cbn in *; subst; reflexivity|].
       unfold f0_lefts. destruct (k_left k) as [cp|].
       * destruct Hleft as [Hne Hok]. replace (lo =? 0) with false by (symmetry; apply Nat.eqb_neq; exact Hne).
-        apply in_map. apply (f0_comps_In lo cp (Nat.lt_le_incl _ _ (f0_leftover_lt fb HF Hq))). exact Hok.
+        apply in_map. apply (f0_comps_In lo lm cp (round_ok_left Hne)). exact Hok.
       * rewrite Hleft. cbn. left. reflexivity.
 Qed.
 
@@ -282,16 +301,17 @@ Lemma f0_keys_length : Z.of_nat (length f0_keys) = possible_keys fb en.
 Proof.
   unfold possible_keys. rewrite f0_rounds_per_run. cbn [en_pcount en_count en_lcount f0_enum].
   unfold f0_keys. rewrite (flat_map_length_const _ (length f0_lefts)) by (intros rs _; apply map_length).
-  rewrite words_length, Nat2Z.inj_mul, Nat2Z.inj_pow. rewrite (f0_comps_length q (le_n _)).
+  rewrite words_length, Nat2Z.inj_mul, Nat2Z.inj_pow. rewrite (f0_comps_length C (le_n _)).
   rewrite Z.mul_1_l. f_equal. unfold f0_lefts. destruct (lo =? 0); [reflexivity|].
-  rewrite map_length. apply f0_comps_length. apply Nat.lt_le_incl. apply (f0_leftover_lt fb HF Hq).
+  rewrite map_length. apply f0_comps_length. apply Nat.lt_le_incl. apply (f0_leftover_lt fb HF).
 Qed.
 
 (** the keys [RandomGen.__sample] draws from *)
-Lemma sample_keys_f0 : sample_keys fb = ROk (if fl_errors_fail fb || (en_count en =? 0)%Z then [] else f0_keys).
+Lemma sample_keys_f0 : make_enumerator fb = ROk en ->
+  sample_keys fb = ROk (if fl_errors_fail fb || (en_count en =? 0)%Z then [] else f0_keys).
 Proof.
-  unfold sample_keys. destruct (fl_errors_fail fb); [reflexivity|].
-  rewrite (f0_make_enumerator fb HF Hq). cbn [rbind orb].
+  intros Hen. unfold sample_keys. destruct (fl_errors_fail fb); [reflexivity|].
+  rewrite Hen. cbn [rbind orb].
   destruct (en_count en =? 0)%Z; [reflexivity|]. apply all_keys_f0.
 Qed.
 
